@@ -24,6 +24,8 @@ pub struct CheckArgs {
     pub replay_dir: PathBuf,
     pub selftest: u64,
     pub minimise_budget: Duration,
+    /// directory with hand-written cases (`<property>-*.json`) evaluated before the seeded batch
+    pub directed: PathBuf,
 }
 
 pub fn scratch_base() -> PathBuf {
@@ -231,7 +233,7 @@ pub fn check(a: &CheckArgs) -> i32 {
                 let name = format!("{}-t{tid}", a.property);
                 loop {
                     let i = next.fetch_add(1, Ordering::SeqCst);
-                    if i >= a.runs || Instant::now() > deadline {
+                    if i >= a.runs || Instant::now() > deadline || super::exec::spin_count() >= 3 {
                         break;
                     }
                     let seed_i = run_seed(a.seed, &a.property, i);
@@ -275,13 +277,49 @@ pub fn check(a: &CheckArgs) -> i32 {
     });
     let batch_wall = t0.elapsed().as_secs_f64();
     let mut sh = shared.into_inner().unwrap();
+
+    // 3b. directed scenarios: hand-written cases for conditions the generator reaches rarely
+    let mut directed_done = 0u64;
+    if let Ok(rd) = std::fs::read_dir(&a.directed) {
+        let mut files: Vec<PathBuf> = rd.filter_map(|e| e.ok()).map(|e| e.path()).collect();
+        files.sort();
+        for (k, f) in files.iter().enumerate() {
+            let name = f.file_name().map(|n| n.to_string_lossy().into_owned()).unwrap_or_default();
+            if !name.starts_with(&format!("{}-", a.property)) || !name.ends_with(".json") {
+                continue;
+            }
+            let case: Case = match std::fs::read_to_string(f).map_err(|e| e.to_string()).and_then(|t| serde_json::from_str(&t).map_err(|e| e.to_string())) {
+                Ok(c) => c,
+                Err(e) => {
+                    harness_errors.push(format!("directed case {name}: {e}"));
+                    continue;
+                }
+            };
+            let r = evaluate(&case, &base, "directed");
+            directed_done += 1;
+            if !r.violations.is_empty() {
+                sh.total_violating_runs += 1;
+                for v in &r.violations {
+                    let e = sh.found.entry(v.signature()).or_insert_with(|| Found {
+                        run_index: 1_000_000_000 + k as u64,
+                        case: r.expanded.clone(),
+                        violation: v.clone(),
+                        count: 0,
+                    });
+                    e.count += 1;
+                }
+            }
+            sh.stats.merge(r.stats);
+        }
+    }
     let runs_done = done_runs.load(Ordering::SeqCst);
 
     // 4. determinism self-test: re-run the first `selftest` run indices on one thread, other scratch
     //    name, and compare the full event digests
     let mut selftest_mismatch = 0u64;
     let mut selftest_done = 0u64;
-    for i in 0..a.selftest.min(runs_done) {
+    let selftest_n = if super::exec::spin_count() > 0 { 0 } else { a.selftest.min(runs_done) };
+    for i in 0..selftest_n {
         let Some(d0) = sh.digests.get(&i).cloned() else { continue };
         let seed_i = run_seed(a.seed, &a.property, i);
         let case = gen_case(&a.property, seed_i, a.tier);
@@ -304,14 +342,44 @@ pub fn check(a: &CheckArgs) -> i32 {
             *suppressed.entry(f.violation.signature()).or_insert(0) += f.count;
             continue;
         }
-        let (case, v) = if n < max_minimise {
+        let spin = f.violation.detail.ends_with("uncontrolled_spin");
+        let (case, v) = if n < max_minimise && !spin {
             let mut m = Minimiser::new(&base, "minimise", &f.violation, a.minimise_budget);
             let (c, v) = m.run(&f.case, &f.violation);
             (c, v)
         } else {
             (f.case.clone(), f.violation.clone())
         };
-        // final confirmation in a fresh evaluation
+        // final confirmation in a fresh evaluation (a spinning case is not re-run: every run of it
+        // costs SPIN_CPU_SECS and leaks one OS thread)
+        if spin {
+            let sig = v.signature();
+            if reported.contains_key(&sig) {
+                continue;
+            }
+            let rf = ReplayFile {
+                format: 1,
+                property: a.property.clone(),
+                class: v.class.clone(),
+                detail: v.detail.clone(),
+                signature: sig.clone(),
+                message: v.message.clone(),
+                seed: a.seed,
+                run_index: f.run_index,
+                shipped_knobs: false,
+                event_digest: "not-recorded-for-spins".into(),
+                case: case.clone(),
+            };
+            let _ = std::fs::create_dir_all(&a.replay_dir);
+            let path = a.replay_dir.join(format!("{}-{}-{:016x}.json", a.property, v.class, crate::rng::fnv(sig.as_bytes())));
+            let _ = std::fs::write(&path, serde_json::to_string_pretty(&rf).unwrap_or_default());
+            println!(
+                "VIOLATION property={} replay={} class={} detail={} seed={} run_index={} shipped_knobs=unknown occurrences={} :: {} (not minimised: each run of this case spins for {} CPU seconds)",
+                a.property, path.display(), v.class, v.detail, a.seed, f.run_index, f.count, v.message, super::exec::SPIN_CPU_SECS
+            );
+            reported.insert(sig, (path, v.clone(), false));
+            continue;
+        }
         let r = evaluate(&case, &base, "confirm");
         let Some(vf) = r.violations.iter().find(|x| x.signature() == v.signature()).cloned() else {
             harness_errors.push(format!("minimised case of {} did not reproduce on confirmation", f.violation.signature()));
@@ -399,6 +467,7 @@ pub fn check(a: &CheckArgs) -> i32 {
             "generator_rejects": st.rejects,
             "reference_invocations": st.reference_invocations,
             "runs_requested": a.runs,
+            "directed_cases_evaluated": directed_done,
             "runs_done": runs_done,
             "runs_per_hour": if batch_wall > 0.0 { (runs_done as f64 / batch_wall * 3600.0) as u64 } else { 0 },
             "invocations_per_hour": if batch_wall > 0.0 { (st.invocations as f64 / batch_wall * 3600.0) as u64 } else { 0 },
